@@ -6,7 +6,6 @@ VERIF*/
 #ifdef VERIF_PRE
 #else
 #include "contracts/common/dq_common.h"
-static inline void _dispatch_set_basepri_override_qos(dispatch_qos_t qos) { (void)qos; }
 
 VERIF_CONTRACT(bool, _dispatch_queue_drain_try_unlock, (dispatch_queue_t dq, uint64_t owned, bool done),
   REQ(dq == (dispatch_queue_t)H_DQ && __verif_n == 0)
